@@ -505,8 +505,8 @@ func lenBound(at ssa.Instruction, p *ssa.Parameter) (int64, bool) {
 // reviewedPanics lists the explicit panics that may stay in the interpreter's
 // cone, each with the rule that makes it unreachable (or the reason it is benign).
 var reviewedPanics = map[string]string{
-	"(*vm.Memory).Set":   "unreachable when R11.2 holds (region covered and memory resized before execute)",
-	"(*vm.Memory).Set32": "unreachable when R11.2 holds",
+	"(*vm.Memory).Set":                                 "unreachable when R11.2 holds (region covered and memory resized before execute)",
+	"(*vm.Memory).Set32":                               "unreachable when R11.2 holds",
 	"(*storage/account.AccountDB).SubRefund":           "refund counter underflow: EIP-2200 pairing in gasSStoreEIP2200 (reviewed)",
 	"(*storage/account.AccountDB).RevertToSnapshot":    "revision id always comes from Snapshot() of the same frame (C12 R12.1)",
 	"(*storage/account.AccountDB).updateAccountObject": "RLP-encoding the fixed Account struct cannot fail",
